@@ -750,7 +750,7 @@ func ruleScaleWire(c *Ctx) {
 	})
 	c.check(miss, name+"|unknown-key", c.pos(fn.Pos()), name, "a key without a signature row is an error", "NewScale no longer returns an error for a key that has no row in the signature table (e.g. E#, Fb): a scale is made up for it")
 	// accidental assignment
-	tr := &tracer{c: c, stop: func(f *ssa.Function) bool { return f.Object() != nil && f.Object().Exported() }}
+	tr := &tracer{c: c, stop: func(f *ssa.Function) bool { return isExportedFn(f) }}
 	classifyG := func(gs []gcond) (in, sharp string) {
 		in, sharp = "?", "?"
 		for _, g := range gs {
